@@ -792,6 +792,13 @@ def dispatch(ctx, case, label="gen"):
             one_runjobs_case(ctx, case, label)
         elif kind == "init":
             one_init_case(ctx, case, label)
+        elif kind == "caller":
+            import c16
+            c16.install_pool()
+            px = _CallerCtx(ctx)
+            c16.one_case(px, c16.probe_cfg(px), case["c16_case"], label="c14-replay")
+        elif kind == "emcee":
+            emcee_parallel_equals_serial(ctx, 2)
         else:
             ctx.notes.setdefault("skipped_replays", []).append(str(kind))
     except Exception as e:  # the harness could not interpret what the code did: the tie is broken for this case
@@ -835,6 +842,112 @@ def run(ctx):
     ctx.notes["scheduled_sessions_wall_s"] = round(time.time() - t0, 1)
     real_process_runs(ctx, ctx.n(3, 40))
     _reap()
+    callers_keyed_by_number(ctx, ctx.n(14, 120))
+    emcee_parallel_equals_serial(ctx, ctx.n(1, 4))
+
+
+# ---------------------------------------------------------------------------------------------
+# the callers: results keyed by job number (grid search, sensitivity), emcee through the pool
+
+
+ORDER_CLASSIFIERS = ("C16-sens-order", "C16-sens-entry", "C16-result-order", "C16-native-entry", "C16-builder-order",
+                     "C16-csv-row", "C16-sens-csv-row", "C16-sens-label", "C16-sensitivity-label-order")
+
+
+class _CallerCtx:
+    """the grid / sensitivity cases of harness/c16.py (jobs completed in a permuted order) seen from C14: only what
+    concerns the attribution of results to jobs is reported here (everything else is C16's subject)"""
+
+    def __init__(self, ctx):
+        self._ctx = ctx
+
+    def __getattr__(self, name):
+        return getattr(self._ctx, name)
+
+    def hit(self, what, *a, **k):
+        pass
+
+    def case(self, *a, **k):
+        self._ctx.evaluations += 1
+
+    def disagree(self, *a, **k):
+        self._ctx.hit("callers:c16-correspondence-remark")
+
+    def fail(self, classifier, what, case, detail=None):
+        if classifier in ORDER_CLASSIFIERS:
+            self._ctx.fail("C14-caller-attributes-result-to-wrong-job",
+                           "with jobs completing out of order a grid search / sensitivity result is attributed to another job "
+                           f"than the one that produced it ({classifier}: {what})", {"kind": "caller", "c16_case": case}, detail)
+        else:
+            self._ctx.hit("callers:c16-remark:" + classifier)
+
+
+def callers_keyed_by_number(ctx, n):
+    import c16
+
+    c16.install_pool()
+    px = _CallerCtx(ctx)
+    try:
+        cfg = c16.probe_cfg(px)
+    except Exception as e:  # noqa
+        ctx.hit("callers:probe-raised:" + type(e).__name__)
+        return
+    for k in range(n):
+        case = c16.gen_sens_case(ctx.rng, 60) if k % 2 == 0 else c16.gen_grid_case(ctx.rng, 60)
+        case["cores"] = max(int(case.get("cores") or 1), 3)
+        case["perm_seed"] = ctx.rng.randrange(1 << 30)
+        try:
+            c16.one_case(px, cfg, case, label="c14")
+            ctx.hit("callers:" + case["kind"])
+        except Exception as e:  # noqa
+            ctx.hit("callers:case-raised:" + type(e).__name__)
+
+
+def emcee_parallel_equals_serial(ctx, n):
+    """an Emcee fit through the pool (2 processes) records exactly what the serial fit records for the same
+    generator state: chain and log probabilities, element by element"""
+    import contextlib
+    import io
+    import numpy as np
+    import autofit as af
+    import vlib
+    import common
+
+    class Quad(af.Analysis):
+        def log_likelihood_function(self, instance):
+            return -0.5 * ((instance.a - 0.3) ** 2 / 0.04 + (instance.b - 1.2) ** 2 / 0.25)
+
+    for k in range(n):
+        model = af.Model(vlib.P2, a=af.GaussianPrior(mean=0.0, sigma=1.0), b=af.LogUniformPrior(lower_limit=0.1, upper_limit=10.0))
+        outs = []
+        try:
+            for cores in (1, 2):
+                seed = 1234 + k
+                random.seed(seed)
+                np.random.seed(seed)
+                from autofit.non_linear.search.mcmc.auto_correlations import AutoCorrelationsSettings
+                search = af.Emcee(nwalkers=6, nsteps=40, number_of_cores=cores,
+                                  auto_correlation_settings=AutoCorrelationsSettings(check_for_convergence=False, check_size=8))
+                with contextlib.redirect_stdout(io.StringIO()), contextlib.redirect_stderr(io.StringIO()):
+                    r = search.fit(model=model, analysis=Quad())
+                si = r.search_internal
+                outs.append((np.asarray(si.get_chain()), np.asarray(si.get_log_prob())))
+        except Exception as e:  # noqa
+            ctx.hit("emcee-parallel:raised:" + type(e).__name__)
+            continue
+        finally:
+            _reap()
+        ctx.hit("emcee-parallel-vs-serial")
+        (c1, l1), (c2, l2) = outs
+        if c1.shape != c2.shape or not np.array_equal(c1, c2) or not np.array_equal(l1, l2, equal_nan=True):
+            first = None
+            if c1.shape == c2.shape and l1.shape == l2.shape:
+                d = np.argwhere(~np.isclose(l1, l2, rtol=0, atol=0, equal_nan=True))
+                first = [int(x) for x in d[0]] if len(d) else None
+            ctx.fail("C14-emcee-parallel-differs", "an Emcee fit through the process pool records other values than the serial fit "
+                     "with the same generator state", {"kind": "emcee", "seed": 1234 + k},
+                     {"first_difference_at": first, "serial": None if first is None else float(l1[tuple(first)]),
+                      "parallel": None if first is None else float(l2[tuple(first)])})
 
 
 def replay(ctx, payload):
